@@ -53,11 +53,30 @@ Definition aspec_del (strategy : bool) (a : astate) (k : key) : astate * bool :=
   | Some _ => (adel1 (if strategy then drop_default_if_last a k else a) k, false)
   end.
 
+(* StrategyDict only: the names of a rejected assignment are released first *)
+Definition aspec_unname (a : astate) (kt : tup) : astate :=
+  fold_left (fun acc k => match aval acc k with
+                          | Some _ => adel1 (drop_default_if_last acc k) k
+                          | None => acc end) kt a.
+
+(* observations: a missing key raises KeyError, an unhashable argument TypeError; nothing changes *)
+Definition aq_raises (a : astate) (q : query) : bool :=
+  match q with
+  | QGet k | QK2K k => match aval a k with Some _ => false | None => true end
+  | QV2K _ => false
+  | QPure => false
+  | QBad => true
+  end.
+
 Definition astep (strategy : bool) (a : astate) (o : op) : astate * bool :=
   match o with
   | OSet kt v => (aspec_set strategy a kt v, false)
   | ODel k => aspec_del strategy a k
   | ODelAttr k => if strategy then aspec_del strategy a k else (a, true)
+  (* an assignment rejected with TypeError (unhashable value) leaves a MultiKeyDict unchanged;
+     a StrategyDict has released the names of the assignment (as "del" of each present name) *)
+  | OSetBad kt => (if strategy then aspec_unname a kt else a, true)
+  | OObs q => (a, aq_raises a q)
   end.
 
 (* the view the property promises (keys()/iteration only up to order) *)
